@@ -121,6 +121,7 @@ func resolveRB(p *Prog, r *Report) *rbInfo {
 }
 
 func runC10(p *Prog, r *Report) {
+	c10MarkAndGcd(p, r)
 	// R8: the weight restored at a membership change is the one configured last (shared with C02.R11)
 	checkConfiguredWeightFollows(p, r, "C10.R8")
 	// R6: the rebalancer's records and the wrapped balancer cannot drift apart: pool changes of the wrapped balancer under the rebalancer mutex, records own their URL (shared with C02.R6 / C02.R5)
@@ -619,6 +620,7 @@ func fullRangeSliceLoop(in ssa.Instruction, typ *types.Named, field string) (boo
 func mutantsC10() []Mutant {
 	f := "roundrobin/rebalancer.go"
 	return []Mutant{
+		{Name: "outliers-when-only-bad-group", File: "roundrobin/rebalancer.go", Old: "\treturn len(g) != 0 && len(b) != 0\n", New: "\t_ = g\n\treturn len(b) != 0\n", Expect: "C10.R2"},
 		{Name: "cap-guard-removed", File: f, Old: "\t\t\tif weight <= FSMMaxWeight {\n\t\t\t\trb.log.Debug(\"increasing weight of %v from %v to %v\", srv.url, srv.curWeight, weight)\n\t\t\t\tsrv.curWeight = weight\n\t\t\t\tchanged = true\n\t\t\t}", New: "\t\t\t{\n\t\t\t\trb.log.Debug(\"increasing weight of %v from %v to %v\", srv.url, srv.curWeight, weight)\n\t\t\t\tsrv.curWeight = weight\n\t\t\t\tchanged = true\n\t\t\t}", Expect: "C10.R1"},
 		{Name: "cap-on-current-weight", File: f, Old: "\t\t\tif weight <= FSMMaxWeight {", New: "\t\t\tif srv.curWeight < FSMMaxWeight {", Expect: "C10.R1"},
 		{Name: "increase-bad-servers", File: f, Old: "\t\tif srv.good {\n\t\t\tweight := increase(srv.curWeight)", New: "\t\tif !srv.good {\n\t\t\tweight := increase(srv.curWeight)", Expect: "C10.R2"},
@@ -635,4 +637,108 @@ func mutantsC10() []Mutant {
 		{Name: "marked-loop-breaks-at-cap", File: "roundrobin/rebalancer.go", Old: "\t\t\tif weight <= FSMMaxWeight {\n\t\t\t\trb.log.Debug(\"increasing weight of %v from %v to %v\", srv.url, srv.curWeight, weight)\n\t\t\t\tsrv.curWeight = weight\n\t\t\t\tchanged = true\n\t\t\t}\n", New: "\t\t\tif weight > FSMMaxWeight {\n\t\t\t\tbreak\n\t\t\t}\n\t\t\trb.log.Debug(\"increasing weight of %v from %v to %v\", srv.url, srv.curWeight, weight)\n\t\t\tsrv.curWeight = weight\n\t\t\tchanged = true\n", Expect: "C10.R2"},
 		{Name: "normalise-without-apply", File: "roundrobin/rebalancer.go", Old: "\tif changed {\n\t\trb.normalizeWeights()\n\t\trb.applyWeights()\n\t\treturn true\n\t}\n\treturn false\n", New: "\tif changed {\n\t\trb.applyWeights()\n\t\trb.normalizeWeights()\n\t\treturn true\n\t}\n\treturn false\n", Expect: "C10.R3"},
 	}
+}
+
+// c10MarkAndGcd (R2): "some servers are outliers" means BOTH groups of the split are non-empty — the marking
+// routine answers true exactly then (decided for the four empty/non-empty combinations from its own
+// comparisons; with only "the bad group is non-empty" a pool whose members are all rated bad never converges) —
+// and the common divisor by which the weights are normalised is folded over the servers' CURRENT weights only
+// (a divisor that is not a divisor of a current weight truncates it, down to 0).
+func c10MarkAndGcd(p *Prog, r *Report) {
+	rbT := p.Named("roundrobin", "Rebalancer")
+	rec := namedRole(p, "roundrobin", "rbServer")
+	if rbT == nil || rec == nil {
+		return
+	}
+	for _, fn := range p.Methods(rbT) {
+		if fn.Blocks == nil || fn.Signature.Results().Len() != 1 || !isPlainBasic(types.Bool)(fn.Signature.Results().At(0).Type()) {
+			continue
+		}
+		split := false
+		for _, c := range Calls(fn) {
+			if f := c.Common().StaticCallee(); f != nil && f.Name() == "SplitFloat64" {
+				split = true
+			}
+		}
+		if !split {
+			continue
+		}
+		r.Fn(FName(fn))
+		var wrong []string
+		for _, gEmpty := range []bool{true, false} {
+			for _, bEmpty := range []bool{true, false} {
+				decide := func(cond ssa.Value) (bool, bool) {
+					cmp, ok := CanonCmp(BuildExpr(p, cond, nil))
+					if !ok || len(cmp.D.P) > 2 {
+						return false, false
+					}
+					d := cmp.D.String()
+					var n int64
+					switch {
+					case strings.Contains(d, "SplitFloat64#0("):
+						if !gEmpty {
+							n = 1
+						}
+					case strings.Contains(d, "SplitFloat64#1("):
+						if !bEmpty {
+							n = 1
+						}
+					default:
+						return false, false
+					}
+					atom := ""
+					for a := range cmp.D.P.atoms() {
+						atom = a
+					}
+					return evalLinAt(cmp, atom, n)
+				}
+				ct, cf := boolReturnsDecide(p, fn, decide)
+				want := !gEmpty && !bEmpty
+				if (want && !ct) || (!want && ct) || (want && cf) {
+					wrong = append(wrong, fmt.Sprintf("good empty=%v bad empty=%v -> true possible=%v false possible=%v", gEmpty, bEmpty, ct, cf))
+				}
+			}
+		}
+		r.Paths += 4
+		r.Check(len(wrong) == 0, "C10.R2", FName(fn)+": reports outliers exactly when both groups of the split are non-empty", p.FuncPos(fn), "decided for the four combinations from the routine's own comparisons",
+			"the routine's answer is not `good group non-empty AND bad group non-empty` ("+truncate(strings.Join(wrong, "; "), 200)+"): with every server rated bad nothing is raised and nothing converges — the weights stay shifted for ever")
+	}
+	// the divisor fold
+	for _, fn := range p.Methods(rbT) {
+		if fn.Blocks == nil {
+			continue
+		}
+		isFold := false
+		for _, c := range Calls(fn) {
+			if f := c.Common().StaticCallee(); f != nil && isEuclid(f) {
+				isFold = true
+			}
+		}
+		if !isFold {
+			continue
+		}
+		rbi := resolveRBQuiet(p)
+		if rbi == nil {
+			continue
+		}
+		r.Fn(FName(fn))
+		var other ssa.Instruction
+		for _, b := range fn.Blocks {
+			for _, in := range b.Instrs {
+				if u, ok := in.(*ssa.UnOp); ok && u.Op == token.MUL {
+					if nt, f, _, ok := fieldOf(u.X); ok && nt == rec && isPlainBasic(types.Int)(structFieldType(rec, f)) && f != rbi.cur {
+						other = in
+					}
+				}
+			}
+		}
+		r.Check(other == nil, "C10.R2", FName(fn)+": the common divisor is folded over current weights only", p.FuncPos(fn), "every weight read in the fold is the current weight",
+			"the divisor fold reads another weight field"+atInstr(p, other)+": the result need not divide every current weight, the normalising division truncates and a server can be left with weight 0")
+	}
+}
+
+// resolveRBQuiet: resolveRB without reporting anchors (used by shared helper rules).
+func resolveRBQuiet(p *Prog) *rbInfo {
+	tmp := NewReport("C10", "quick")
+	return resolveRB(p, tmp)
 }
